@@ -68,6 +68,46 @@ def handle : Handler
       some (outResp clen (respond method (mkReq range ifRange ifRangeDate ims inm im)
           { etag := etag, lastModified := lm } clen accept chunks seek pass))
     | _, _, _, _, _, _, _, _, _, _, _, _, _, _ => some badArgs
+  | "mcf", [method, range, ifRange, ims, inm, im, etag, lm, clen, accept, chunks, seek, pass] =>
+    -- make_conditional with every form of the accept_ranges argument: `0` False, `1` True, `u<hex>` a unit string
+    let acc : Option AcceptArg :=
+      if accept == "0" then some .no else if accept == "1" then some .yes
+      else if accept.startsWith "u" then (unhexStr (accept.drop 1).toString).map .unit else none
+    match unhexStr method, optStr range, optStr ifRange, optStr ims, optStr inm,
+        optStr im, optStr etag, optStr lm, optInt clen, acc, listArg unhex chunks,
+        optArg natArg seek, natArg pass with
+    | some method, some range, some ifRange, some ims, some inm, some im, some etag,
+        some lm, some clen, some acc, some chunks, some seek, some pass =>
+      let res := makeConditionalFull method (mkReqText range ifRange ims inm im)
+          (mkRespText etag lm) clen acc chunks seek pass
+      some (outResp clen (res.map (·.1)) ++ "|" ++
+        (match res with
+          | none => "~"
+          | some (_, h) => outOpt hexStr h))
+    | _, _, _, _, _, _, _, _, _, _, _, _, _ => some badArgs
+  | "sendfile", [method, range, ifRange, ims, inm, im, isPath, size, mtimeSec, mtimeMicro, mtimeRepr,
+      check, etagArg, lastMod, conditional, data, seekable, maxAge] =>
+    -- etagArg: `A` auto, `O` off, `g<hex>` given; instants count from 0001-01-01
+    let ea : Option EtagArg :=
+      if etagArg == "A" then some .auto else if etagArg == "O" then some .off
+      else if etagArg.startsWith "g" then (unhexStr (etagArg.drop 1).toString).map .given else none
+    match unhexStr method, optStr range, optStr ifRange, optStr ims, optStr inm, optStr im,
+        boolArg isPath, optArg natArg size, optInt mtimeSec, natArg mtimeMicro, unhexStr mtimeRepr,
+        natArg check, ea, optInt lastMod, boolArg conditional, unhex data, boolArg seekable, optInt maxAge with
+    | some method, some range, some ifRange, some ims, some inm, some im, some isPath, some size,
+        some mtimeSec, some mtimeMicro, some mtimeRepr, some check, some ea, some lastMod,
+        some conditional, some data, some seekable, some maxAge =>
+      let mt : Option (Int × Nat) := mtimeSec.map fun s => (s, mtimeMicro)
+      let a : SendFile := ⟨isPath, size, mt, mtimeRepr, check, ea, lastMod, conditional⟩
+      some (match sendFile a method (mkReqText range ifRange ims inm im) data seekable with
+        | .error e => "EXC:" ++ e
+        | .ok res =>
+          outResp (size.map fun n => (n : Int)) res ++ "|" ++
+            (match a.etagHeader with
+              | .ok et => outOpt hexStr et
+              | .error _ => "~") ++ "|" ++ outOpt outInt a.lastMod ++ "|" ++
+            hexStr (sendFileCacheControl maxAge) ++ "|" ++ outBool (sendFileExpires maxAge 0).isSome)
+    | _, _, _, _, _, _, _, _, _, _, _, _, _, _, _, _, _, _ => some badArgs
   | "prange", [v] =>
     match optStr v with
     | some v => some (outOpt outRange (parseRangeHeader v))
